@@ -6,10 +6,14 @@ CONSTANTS
 SPECIFICATION Spec
 INVARIANT TypeOK
 INVARIANT Total
+INVARIANT Closed
 INVARIANT ErrLeftFirst
 INVARIANT DivZero
 INVARIANT Coercion
 INVARIANT WordIsText
+INVARIANT BeyondIsText
+INVARIANT ForeignIsText
+INVARIANT Overflow
 INVARIANT Trichotomy
 INVARIANT TypeOrder
 INVARIANT CaseBlind
